@@ -306,11 +306,28 @@ def run_ground_chunk(args):
     return out
 
 
+class _CaseTimeout(Exception):
+    pass
+
+
+def _case_alarm(signum, frame):
+    raise _CaseTimeout()
+
+
 def run_case(args):
     """worker: explore + discharge one (harness, case); returns a plain dict"""
+    import signal
     pid, hname, case, tier, module_names, known_scopes = args
     t0 = time.time()
     out = {"harness": hname, "case": case, "vcs": [], "paths": 0, "error": None, "crosscheck": None}
+    # wall-clock limit per harness case: a loop whose invariant no longer attaches, or a helper whose contract is no longer found,
+    # can make the path exploration explode; the case is then out of the verifier's reach in this tree (bounded stand-in)
+    limit = int(os.environ.get("PYVC_CASE_WALL_S", "0") or 0) or (1500 if tier == "thorough" else 200)
+    try:
+        signal.signal(signal.SIGALRM, _case_alarm)
+        signal.alarm(limit)
+    except Exception:
+        pass
     try:
         load_contract_modules(module_names)
         h = get_harness(pid, hname)
@@ -457,10 +474,18 @@ def run_case(args):
         ncc = opts.get("crosscheck", 20 if tier == "quick" else 200)
         if ncc:
             out["crosscheck"] = crosscheck(h, case, ncc, seed=int(os.environ.get("VERIF_SEED", "0") or 0))
+    except _CaseTimeout:
+        out["error"] = "out-of-reach: wall-clock limit of %d s for one harness case (path explosion)" % limit
+        out["vcs"] = []
     except OutOfReach as e:
         out["error"] = "out-of-reach: %s" % e
     except Exception as e:
         out["error"] = "crash: %s\n%s" % (e, traceback.format_exc())
+    finally:
+        try:
+            signal.alarm(0)
+        except Exception:
+            pass
     out["wall_s"] = round(time.time() - t0, 3)
     return out
 
@@ -746,6 +771,9 @@ def run_property(pid, module_names, tier="quick", jobs=None, only=None):
                 fb = _native_fallback(pid, module_names, h, r["case"], name, tier, seed)
                 if fb[0] == "violated":
                     violations.append(fb[1])
+                elif fb[0] == "unclean":
+                    degraded.append("%s: not decided deductively (%s); its native form is not float-exact, the bounded clauses of the "
+                                    "property are the stand-in" % (name, r["error"].split("\n")[0][:160]))
                 elif fb[0] == "ok":
                     degraded.append("%s: not decided deductively (%s); %d native evaluations of the same harness held" %
                                     (name, r["error"].split("\n")[0][:160], fb[1]))
@@ -818,6 +846,9 @@ def run_property(pid, module_names, tier="quick", jobs=None, only=None):
                 if fb[0] == "violated":
                     if not any(x[0] == fb[1][0] for x in violations):
                         violations.append(fb[1])
+                elif fb[0] == "unclean":
+                    degraded.append("%s: %s (%s); its native form is not float-exact, the bounded clauses of the property are the "
+                                    "stand-in" % (full, v["verdict"], v.get("detail", "")))
                 elif fb[0] == "ok":
                     degraded.append("%s: %s (%s); %d native evaluations of the same harness held" % (full, v["verdict"], v.get("detail", ""), fb[1]))
                 else:
@@ -999,10 +1030,23 @@ def run_property(pid, module_names, tier="quick", jobs=None, only=None):
     return 0
 
 
+_UNCLEAN = None
+
+
 def _native_fallback(pid, module_names, h, case, name, tier, seed):
     """bounded stand-in for a harness that could not be decided deductively in this tree: the same harness text on the real
     code, seeded random inputs from its declared ranges.  -> ('violated', violation tuple) | ('ok', n) | ('unusable', reason)"""
     import zlib
+    global _UNCLEAN
+    if _UNCLEAN is None:
+        try:
+            _UNCLEAN = json.load(open(os.path.join(VERIF, "native_unclean.json")))
+        except Exception:
+            _UNCLEAN = {}
+    if name in _UNCLEAN.get(pid, ()):
+        # the clauses of this harness are exact identities of real arithmetic: in binary64 some of them fail on correct code
+        # (tools/calibrate_native.py, run on the unchanged tree), so its native form cannot tell right from wrong
+        return ("unclean", 0)
     n_runs = 3000 if tier == "thorough" else 300
     rng = random.Random(zlib.crc32(name.encode()) + 31 * seed)
     done = 0
